@@ -1,3 +1,4 @@
+import RSV.Props.C17submatrix
 import RSV.Props.C17invert
 import RSV.Props.C17buildMatrix
 import RSV.Props.C17funcs
